@@ -163,6 +163,44 @@ func (e *Eng) boxValues(a *ssa.Alloc) (vals []ssa.Value, escaped bool) {
 	return vals, escaped
 }
 
+// boxStores is boxValues returning the store instructions (stores in closures included).
+func (e *Eng) boxStores(a *ssa.Alloc) (sts []*ssa.Store, escaped bool) {
+	var visit func(addr ssa.Value)
+	seen := map[ssa.Value]bool{}
+	visit = func(addr ssa.Value) {
+		if seen[addr] {
+			return
+		}
+		seen[addr] = true
+		refs := addr.Referrers()
+		if refs == nil {
+			return
+		}
+		for _, r := range *refs {
+			switch r := r.(type) {
+			case *ssa.Store:
+				if r.Addr == addr {
+					sts = append(sts, r)
+				} else {
+					escaped = true
+				}
+			case *ssa.UnOp, *ssa.FieldAddr, *ssa.IndexAddr, *ssa.DebugRef:
+			case *ssa.MakeClosure:
+				fn := r.Fn.(*ssa.Function)
+				for i, b := range r.Bindings {
+					if b == addr && i < len(fn.FreeVars) {
+						visit(fn.FreeVars[i])
+					}
+				}
+			default:
+				escaped = true
+			}
+		}
+	}
+	visit(a)
+	return sts, escaped
+}
+
 // freeVarBinding resolves a free variable of a literal to the value bound in the enclosing function.
 func freeVarBinding(fv *ssa.FreeVar) ssa.Value {
 	fn := fv.Parent()
